@@ -5,7 +5,7 @@ from harness.props import base
 PROP = {
     "id": "C01",
     "quick_n": 400,
-    "thorough_n": 6000,
+    "thorough_n": 4000,
     "rule": "one program = a tree spec (19 primitives, depth<=3; dyadic and non-dyadic families), "
             "a stream over the tree's critical values (edges, midpoints, thresholds, +-ulp, nan, "
             "+-inf) with weights incl. 0/negative/nan, a random partition into 1..5 chunks (empty "
